@@ -114,13 +114,11 @@ func (v *view) keysWith(prefix []byte) [][]byte {
 
 // exp is what a read must return.
 type exp struct {
-	status   int
-	key      []byte
-	isOwn    bool
-	ow       own
-	ver      stx.Ver
-	alsoMiss bool   // own deleted/expired entry read through a filtering point lookup: "not found" is accepted as well
-	firstKey []byte // GetWithPrefix: the first candidate key (before filters)
+	status int
+	key    []byte
+	isOwn  bool
+	ow     own
+	ver    stx.Ver
 }
 
 func (e exp) String() string {
@@ -146,11 +144,14 @@ func filtered(e stx.Entry, filters int) bool {
 	return false
 }
 
-// get models OngoingTx.GetWithFilters.
+// get models OngoingTx.GetWithFilters: the pending write of the transaction (if any) replaces the
+// committed version before the filters are evaluated.
 func (v *view) get(k []byte, filters int) exp {
 	if w, ok := v.own[string(k)]; ok {
-		// the snapshot holds a placeholder without metadata for own writes: filters do not see them
-		return exp{status: stFound, key: k, isOwn: true, ow: w, alsoMiss: filtered(w.e, filters)}
+		if filtered(w.e, filters) {
+			return exp{status: stNotFound}
+		}
+		return exp{status: stFound, key: k, isOwn: true, ow: w}
 	}
 	ver := v.h.latest(k, v.upTo)
 	if ver == nil || filtered(ver.E, filters) {
@@ -159,16 +160,16 @@ func (v *view) get(k []byte, filters int) exp {
 	return exp{status: stFound, key: k, ver: *ver}
 }
 
-// getWithPrefix models OngoingTx.GetWithPrefixAndFilters: the first key under the prefix greater
-// than neq; the filters are evaluated on that key only.
+// getWithPrefix models OngoingTx.GetWithPrefixAndFilters: the first key under the prefix, greater
+// than neq, whose entry (the pending write of the transaction, if any) passes the filters.
 func (v *view) getWithPrefix(prefix, neq []byte, filters int) exp {
 	for _, k := range v.keysWith(prefix) {
 		if len(neq) > 0 && bytes.Compare(k, neq) <= 0 {
 			continue
 		}
-		e := v.get(k, filters)
-		e.firstKey = k
-		return e
+		if e := v.get(k, filters); e.status == stFound {
+			return e
+		}
 	}
 	return exp{status: stNotFound}
 }
@@ -324,9 +325,6 @@ func differs(r res, e exp) string {
 		return "unexpected error " + r.err
 	}
 	if r.status != e.status {
-		if e.status == stFound && e.alsoMiss && r.status == stNotFound {
-			return ""
-		}
 		return "outcome differs"
 	}
 	if e.status != stFound {
